@@ -29,6 +29,25 @@ def strip_bitcasts(fn, ref):
     return ref
 
 
+def shift_const(fn, pred, a, b):
+    """(x + c) ==/!= k  is  x ==/!= k - c  (modular arithmetic keeps equality; ordering tests are left alone)"""
+    if pred not in ('eq', 'ne'):
+        return a, b
+    for _ in range(4):
+        ai = fn.get(a) if isinstance(a, str) else None
+        kb = const_int(b)
+        if ai is None or kb is None or ai.op not in ('add', 'sub'):
+            break
+        c = const_int(ai.o[1])
+        if c is None:
+            break
+        bits = ai.x.get('bits') or 64
+        m = (1 << bits) - 1
+        k2 = (kb - c) & m if ai.op == 'add' else (kb + c) & m
+        a, b = _k(strip_bitcasts(fn, ai.o[0])), '#%d' % k2
+    return a, b
+
+
 def negate(atom):
     op, a, b = atom
     if op == 'eq':
@@ -75,6 +94,9 @@ def cond_atoms(fn, ref, truth, depth=0):
         if ins.pred not in _PRED:
             return [], []
         a, b = strip_bitcasts(fn, a), strip_bitcasts(fn, b)
+        if ins.pred in ('eq', 'ne') and (const_int(a) is not None or a == 'null') and not (const_int(b) is not None or b == 'null'):
+            a, b = b, a            # constants on the right
+        a, b = shift_const(fn, ins.pred, a, b)
         atom = _PRED[ins.pred](_k(a), _k(b))
         return [atom if truth else negate(atom)], []
     if ins.op == 'xor' and const_int(ins.o[1]) == 1:
@@ -161,6 +183,27 @@ class FactCache:
         for vb in via:
             facts.update(self.block_facts(vb))
         return frozenset(facts)
+
+
+def phi_leaves(fn, fc, ref, _seen=None):
+    """[(leaf value, incoming block or None, facts known when that leaf is the one selected)] for a value that
+    merges alternatives through (nested) phis; for a non-phi value the single leaf has facts None"""
+    _seen = _seen if _seen is not None else set()
+    ref = strip_bitcasts(fn, ref) if isinstance(ref, str) else ref
+    i = fn.get(ref) if isinstance(ref, str) else None
+    if i is None or i.op != 'phi' or i.id in _seen:
+        return [(ref, None, None)]
+    _seen.add(i.id)
+    out = []
+    for v, bb in zip(i.o, i.x['bb']):
+        pb = fn.bb[bb]
+        sub = phi_leaves(fn, fc, v, _seen)
+        for leaf, lb, lf in sub:
+            if lf is None:
+                out.append((leaf, pb, fc.edge_facts(pb, i.block)))
+            else:
+                out.append((leaf, lb, frozenset(set(lf) | set(fc.edge_facts(pb, i.block)))))
+    return out
 
 
 class Prover:
@@ -357,7 +400,10 @@ class Prover:
                 continue
             for (p, qv) in ((a, b), (b, a)):
                 if x != p:
-                    continue
+                    # p == x + 1 with the strict fact  x <u udiv(K, qv)  gives  p <= udiv(K, qv)  as well
+                    pi = self._ins(p)
+                    if not (op == 'ult' and pi is not None and pi.op == 'add' and const_int(pi.o[1]) == 1 and _k(pi.o[0]) == x):
+                        continue
                 yi = self._ins(y)
                 if yi is not None and yi.op == 'udiv' and _k(yi.o[1]) == qv:
                     k = self.ub(facts, _k(yi.o[0]), depth + 1)
